@@ -76,6 +76,7 @@ type Ctx struct {
 	deadline time.Time
 	// memory guard (see TimeUp); TimeUp is called from the search loop of one goroutine, or from several: the two
 	// fields are only a cache, a race on them costs one more sample
+	sliceEnd   atomic.Int64 // unix nanoseconds; 0 = no slice (see Slice)
 	memChecked atomic.Int64 // unix nanoseconds of the last sample
 	memTight   atomic.Bool
 	mu         sync.Mutex
@@ -244,6 +245,9 @@ func (c *Ctx) TimeUp() bool {
 	if now.After(c.deadline) {
 		return true
 	}
+	if se := c.sliceEnd.Load(); se != 0 && now.UnixNano() > se {
+		return true
+	}
 	if c.memTight.Load() {
 		return true
 	}
@@ -264,6 +268,22 @@ func (c *Ctx) TimeUp() bool {
 }
 
 func (c *Ctx) Elapsed() time.Duration { return time.Since(c.start) }
+
+// Slice gives the part of a check that starts now an equal share of the time left, assuming `remaining` parts
+// (this one included) still have to run: until EndSlice, TimeUp also reports true once that share is used up. A check
+// with several independent searches uses it so that the first one cannot eat the whole budget.
+func (c *Ctx) Slice(remaining int) {
+	if remaining < 1 {
+		remaining = 1
+	}
+	left := time.Until(c.deadline)
+	if left < 0 {
+		left = 0
+	}
+	c.sliceEnd.Store(time.Now().Add(left / time.Duration(remaining)).UnixNano())
+}
+
+func (c *Ctx) EndSlice() { c.sliceEnd.Store(0) }
 
 // ---------------------------------------------------------------------------------------------------
 
